@@ -246,7 +246,7 @@ def r13_2(ctx):
         sq = '<raqote::blitter::%s as raqote::blitter::Shader>::shade_span' % ty
         sb = ctx.body(sq, R)
         san = ctx.an(sb)
-        st = [(a2, v, pt) for a2, v, pt, kind in san.stores if kind == 'assign' and a2[0] == 'index' and strip_all(a2[1]) in (('param', 4), ('deref', ('param', 4)))]
+        st, it_form = shared.dest_walk_stores(san)
         ok = len(st) == 1
         if ok:
             a2, v, pt = st[0]
@@ -272,8 +272,9 @@ def r13_2(ctx):
                 if alpha:
                     ok = ok and is_self_field(strip_all(args[3]), 'alpha')
                 # dest[i] with i over 0..count
-                lv = dt.loop_vars(san, sb, Poly.leaf(('param', 5)))
-                ok = ok and nosite(a2[2]) in lv
+                if not it_form:
+                    lv = dt.loop_vars(san, sb, Poly.leaf(('param', 5)))
+                    ok = ok and nosite(a2[2]) in lv
         ctx.check(ok, R, key + '::shade_span|fetch', sb.loc(), 'dest[i] = %s::<Fetch>(image, xfm(x+i, y))' % fetch,
                   '%s::shade_span does not store %s::<Fetch>(self.image, xfm.transform(x, y)) for consecutive x at row y into dest[0..count]' % (ty, fetch))
         n += 1
